@@ -127,6 +127,36 @@ claim('C17',
       'integer ticks.',
       'DESIGN.md section 3, C17')
 
+claim('C11',
+      'case-driven abstract interpretation (literal attribute strings x aspect order) to rational normal forms + comparison with the SVG table',
+      'Decides the decision table of vb_scale for all numeric viewBox/page values: for align in '
+      '{absent, none, 9 aligns in camelCase/upper/lower spellings, comma or blank separated} x '
+      'meetOrSlice in {absent, meet, slice} x defer x sign(ar_doc-ar_vb) the returned (s_x, s_y, '
+      'o_x, o_y), as rational normal forms over the viewBox and page atoms, equal the SVG 1.1 7.8 '
+      'table (modulo H*w=h*W on equal aspect); absent attribute means xMidYMid meet; over the 81 '
+      'sign cases of (w,h,W,H) the identity transform is returned exactly for a non-positive size '
+      'and before dividing by it; missing viewBox or <4 tokens give the identity; viewBox commas '
+      'are mapped to whitespace. Not decided: non-numeric tokens, floating-point evaluation.',
+      'Trusted: Python ast, str.strip/replace/lower/split semantics on the literal attribute, the '
+      'SVG table transcribed in vf/props/c11.py, vf/interp.py, vf/poly.py.',
+      'DESIGN.md section 3, C11')
+
+claim('C08',
+      'order-type enumeration of the region codes and of one loop iteration (transfer function) in rational normal forms',
+      'Decides step correctness of the Cohen-Sutherland loop in exact arithmetic for every order '
+      'type of both end points relative to the rectangle (about 2000 per counter regime): region '
+      'code = OR of four distinct single-bit masks with strict outside tests; accept iff both '
+      'ends in the closed rectangle (returns the current segment); reject iff both strictly '
+      'outside one side; otherwise exactly one outside end point is replaced by the intersection '
+      'of the current line with a boundary it is outside of, orientation kept, all division '
+      'denominators provably non-zero, counter incremented; with the counter above every literal '
+      'the loop always returns (bounded). Not decided: the floating-point tolerance clauses and '
+      'what the failsafe returns near precision limits.',
+      'Trusted: Python ast, vf/interp.py, vf/order.py, vf/poly.py. Step correctness + boundedness '
+      'imply the exact-arithmetic statement by the standard Cohen-Sutherland invariant (each step '
+      'keeps the inside part of the segment and removes an outside part).',
+      'DESIGN.md section 3, C08')
+
 
 def build():
     checks = []
